@@ -234,9 +234,13 @@ Qed.
 Theorem spec_c14_model i :
   in_domain14 i = true ->
   spec_c14 i (model_eobs i)
-  = map (fun d => clause 14 6 [L 1; L (d_id d)]) (e_dropped (es_run (ei_cfg i) (ei_script i) (ei_ops i) (ei_clean i))).
+  = map (fun d => clause 14 6 [L 1; L (d_id d)]) (e_dropped (es_run (ei_cfg i) (ei_script i) (ei_ops i) (ei_clean i)))
+    ++ (if ei_gate i
+        then map (fun d => clause 14 6 [L 2; L (d_id d)])
+                 (concat (b_batches (bfinish (ei_cfg i) (ei_clean i) (brun (ei_cfg i) (ei_ops i)))))
+        else []).
 Proof.
-  intros Hd. unfold spec_c14, model_eobs. cbn [eo_unreliable eo_answers eo_calls eo_high eo_timeout]. rewrite Hd. cbn [orb negb].
+  intros Hd. unfold spec_c14, model_eobs. cbn [eo_unreliable eo_answers eo_calls eo_high eo_timeout eo_at_shutdown]. rewrite Hd. cbn [orb negb].
   cbv zeta.
   unfold in_domain14 in Hd. apply andb_true_iff in Hd as [Hd Hnd]. apply andb_true_iff in Hd as [Hd Hw].
   apply andb_true_iff in Hd as [Hbs Hmr]. apply Nat.leb_le in Hbs. apply nodupb_NoDup in Hnd.
@@ -281,9 +285,9 @@ Proof.
   assert (Dsent : forall d, In d sent -> has_doc (d_id d) pend = false).
   { intros d Hds. apply has_doc_out. eapply NoDup_app_disj; eauto. now apply in_map. }
   rewrite <- Hcat. rewrite !flat_map_app.
-  assert (P1 : forall (A1 A2 B1 B2 C D E X : list tree),
-             A1 = [] -> A2 = X -> B1 = [] -> B2 = [] -> C = [] -> D = [] -> E = [] ->
-             (A1 ++ A2) ++ (B1 ++ B2) ++ C ++ D ++ [] ++ E = X)
+  assert (P1 : forall (A1 A2 B1 B2 C D E G X Y : list tree),
+             A1 = [] -> A2 = X -> B1 = [] -> B2 = [] -> C = [] -> D = [] -> E = [] -> G = Y ->
+             (A1 ++ A2) ++ (B1 ++ B2) ++ C ++ D ++ [] ++ E ++ G = X ++ Y)
     by (intros; subst; now rewrite !app_nil_r).
   apply P1.
   - (* clause 1 / 6 on sent documents *)
@@ -322,12 +326,23 @@ Proof.
     destruct (Hout id Hno) as [A C].
     rewrite (answers_of_bads_in _ _ Nb Hid), A, EC, C. cbn [map app enc_answer].
     rewrite (list_eqb_refl tree_eqb tree_eqb_refl). reflexivity.
+  - (* requests in flight when Shutdown returned *)
+    destruct (ei_gate i); [|reflexivity].
+    assert (G2 : forall (G1 G2 Y : list tree), G1 = Y -> G2 = [] -> G1 ++ G2 = Y) by (intros; subst; now rewrite app_nil_r).
+    apply G2.
+    + rewrite (map_as_flat_map (fun d : doc => clause 14 6 [L 2; L (d_id d)]) sent). apply flat_map_ext_in'.
+      intros d Hds. rewrite (Dsent d Hds). cbn [andb orb].
+      assert (Hnb : existsb (Z.eqb (d_id d)) (bads_of ops) = false).
+      { destruct (existsb (Z.eqb (d_id d)) (bads_of ops)) eqn:E; [|reflexivity].
+        apply existsb_Zeqb_In in E. exfalso. apply (Disj (d_id d)); [apply Hdocs; left; now apply in_map|exact E]. }
+      now rewrite Hnb.
+    + apply flat_map_nil. intros d Hdp. now rewrite (Dpend d Hdp).
 Qed.
 
 Corollary spec_c14_sound_clean i :
-  in_domain14 i = true -> ei_clean i = true -> spec_c14 i (model_eobs i) = [].
+  in_domain14 i = true -> ei_clean i = true -> ei_gate i = false -> spec_c14 i (model_eobs i) = [].
 Proof.
-  intros Hd Hc. rewrite (spec_c14_model i Hd).
+  intros Hd Hc Hg. rewrite (spec_c14_model i Hd). rewrite Hg, app_nil_r.
   destruct (bpart_any (ei_cfg i) (ei_ops i) (ei_clean i)) as [_ [_ Hp]]. cbv zeta in Hp. rewrite Hc in Hp.
   unfold es_run. cbn [e_dropped]. rewrite Hc, Hp. reflexivity.
 Qed.
